@@ -33,8 +33,8 @@ Definition penc (i : pinsn) : N :=
 Definition pvalid (i : pinsn) : Prop :=
   match i with
   | PPac => True
-  | PStpPre a b i7 => a < 32 /\ b < 32 /\ 64 <= i7 < 128
-  | PStpOff a b i7 => a < 32 /\ b < 32 /\ i7 < 128
+  | PStpPre a b i7 => creg a /\ creg b /\ 64 <= i7 < 128
+  | PStpOff a b i7 => creg a /\ creg b /\ i7 < 128
   | PSubSp i12 sh => i12 < 4096 /\ sh < 2
   end.
 (* by how much the instruction lowers sp *)
@@ -62,8 +62,8 @@ Proof.
   - split; [|split; [reflexivity | reflexivity]]. unfold a_pro_rstep. change (PACIBSP =? 3573752703) with true. cbv iota.
     f_equal. lia.
   - destruct Hv as (Ha & Hb & Hi).
-    pose proof (all3_spec _ _ _ _ stp_pre_fields_all a b i7 ltac:(lia) ltac:(lia) ltac:(lia)) as F.
-    cbv beta in F. unfold pair_fields in F. fold (enc_stp_pre a b i7) in F. cbv zeta in F. split_andb F.
+    pose proof (pair_spec _ stp_pre_fields_all a b i7 Ha Hb ltac:(lia)) as F.
+    unfold stp_pre_ok, pair_fields in F. fold (enc_stp_pre a b i7) in F. cbv zeta in F. split_andb F.
     split; [|split; [|lia]].
     + unfold a_pro_rstep.
       replace (enc_stp_pre a b i7 =? 3573752703) with false by (unfold PACIBSP in *; lia).
@@ -75,8 +75,8 @@ Proof.
       replace (spo - simm7 i7 * 8)%Z with (spo + - simm7 i7 * 8)%Z by lia. rewrite Hok. reflexivity.
     + lia.
   - destruct Hv as (Ha & Hb & Hi).
-    pose proof (all3_spec _ _ _ _ stp_off_fields_all a b i7 ltac:(lia) ltac:(lia) ltac:(lia)) as F.
-    cbv beta in F. unfold pair_fields in F. fold (enc_stp_off a b i7) in F. cbv zeta in F. split_andb F.
+    pose proof (pair_spec _ stp_off_fields_all a b i7 Ha Hb ltac:(lia)) as F.
+    unfold stp_off_ok, pair_fields in F. fold (enc_stp_off a b i7) in F. cbv zeta in F. split_andb F.
     split; [|split; [|lia]].
     + unfold a_pro_rstep.
       replace (enc_stp_off a b i7 =? 3573752703) with false by (unfold PACIBSP in *; lia).
@@ -174,12 +174,12 @@ Proof.
   destruct n as [[|a b i7|a b i7|i12 sh]|i12]; cbn [nvalid pvalid nenc penc nneeds_sub]; intros Hv.
   - split; reflexivity.
   - destruct Hv as (Ha & Hb & Hi).
-    pose proof (all3_spec _ _ _ _ stp_pre_fields_all a b i7 ltac:(lia) ltac:(lia) ltac:(lia)) as F.
-    cbv beta in F. unfold pair_fields in F. fold (enc_stp_pre a b i7) in F. cbv zeta in F. split_andb F.
+    pose proof (pair_spec _ stp_pre_fields_all a b i7 Ha Hb ltac:(lia)) as F.
+    unfold stp_pre_ok, pair_fields in F. fold (enc_stp_pre a b i7) in F. cbv zeta in F. split_andb F.
     split; [lia|]. destruct (a_pro_itype (enc_stp_pre a b i7)); try discriminate; reflexivity.
   - destruct Hv as (Ha & Hb & Hi).
-    pose proof (all3_spec _ _ _ _ stp_off_fields_all a b i7 ltac:(lia) ltac:(lia) ltac:(lia)) as F.
-    cbv beta in F. unfold pair_fields in F. fold (enc_stp_off a b i7) in F. cbv zeta in F. split_andb F.
+    pose proof (pair_spec _ stp_off_fields_all a b i7 Ha Hb ltac:(lia)) as F.
+    unfold stp_off_ok, pair_fields in F. fold (enc_stp_off a b i7) in F. cbv zeta in F. split_andb F.
     split; [lia|]. destruct (a_pro_itype (enc_stp_off a b i7)); try discriminate; reflexivity.
   - destruct Hv as (Hi & Hs).
     pose proof (all3_spec _ _ _ _ sub_fields_all i12 sh 0 ltac:(lia) ltac:(lia) ltac:(lia)) as F.
@@ -291,8 +291,8 @@ Definition tenc (t : eterm) : N := match t with TRet => RET | TRetab => RETAB | 
 Definition evalid (i : einsn) : Prop :=
   match i with
   | EAddSp i12 sh => i12 < 4096 /\ sh < 2
-  | ELdpOff a b i7 => a < 32 /\ b < 32 /\ i7 < 128
-  | ELdpPost a b i7 => a < 32 /\ b < 32 /\ i7 < 64
+  | ELdpOff a b i7 => creg a /\ creg b /\ i7 < 128
+  | ELdpPost a b i7 => creg a /\ creg b /\ i7 < 64
   end.
 Definition tvalid (t : eterm) : Prop := match t with TB i => i < 67108864 | _ => True end.
 
@@ -353,8 +353,8 @@ Proof.
     { unfold i32_ok, imm12. destruct (sh =? 1); lia. }
     rewrite Hok. reflexivity.
   - destruct Hv as (Ha & Hb & Hi).
-    pose proof (all3_spec _ _ _ _ ldp_off_fields_all a b i7 ltac:(lia) ltac:(lia) ltac:(lia)) as F.
-    cbv beta in F. unfold pair_fields in F. fold (enc_ldp_off a b i7) in F. cbv zeta in F. split_andb F. split; [|lia].
+    pose proof (pair_spec _ ldp_off_fields_all a b i7 Ha Hb ltac:(lia)) as F.
+    unfold ldp_off_ok, pair_fields in F. fold (enc_ldp_off a b i7) in F. cbv zeta in F. split_andb F. split; [|lia].
     unfold a_epi_step.
     replace (enc_ldp_off a b i7 =? 3596551104) with false by (unfold RET in *; lia).
     replace (enc_ldp_off a b i7 =? 3596554239) with false by (unfold RETAB in *; lia).
@@ -372,8 +372,8 @@ Proof.
     pose proof (upd_analyser a b (es_sp s + simm7 i7 * 8)%Z (es_sp s + simm7 i7 * 8 + 8)%Z (es_fp s) (es_lr s)) as U.
     cbv zeta in U. rewrite <- U. reflexivity.
   - destruct Hv as (Ha & Hb & Hi).
-    pose proof (all3_spec _ _ _ _ ldp_post_fields_all a b i7 ltac:(lia) ltac:(lia) ltac:(lia)) as F.
-    cbv beta in F. unfold pair_fields in F. fold (enc_ldp_post a b i7) in F. cbv zeta in F. split_andb F. split; [|lia].
+    pose proof (pair_spec _ ldp_post_fields_all a b i7 Ha Hb ltac:(lia)) as F.
+    unfold ldp_post_ok, pair_fields in F. fold (enc_ldp_post a b i7) in F. cbv zeta in F. split_andb F. split; [|lia].
     unfold a_epi_step.
     replace (enc_ldp_post a b i7 =? 3596551104) with false by (unfold RET in *; lia).
     replace (enc_ldp_post a b i7 =? 3596554239) with false by (unfold RETAB in *; lia).
@@ -457,12 +457,12 @@ Proof.
     cbv beta in F. unfold add_fields in F. cbv zeta in F. split_andb F. split; [|lia].
     destruct (a_epi_itype (enc_add_sp i12 sh)); try discriminate; reflexivity.
   - destruct Hv as (Ha & Hb & Hi).
-    pose proof (all3_spec _ _ _ _ ldp_off_fields_all a b i7 ltac:(lia) ltac:(lia) ltac:(lia)) as F.
-    cbv beta in F. unfold pair_fields in F. fold (enc_ldp_off a b i7) in F. cbv zeta in F. split_andb F. split; [|lia].
+    pose proof (pair_spec _ ldp_off_fields_all a b i7 Ha Hb ltac:(lia)) as F.
+    unfold ldp_off_ok, pair_fields in F. fold (enc_ldp_off a b i7) in F. cbv zeta in F. split_andb F. split; [|lia].
     destruct (a_epi_itype (enc_ldp_off a b i7)); try discriminate; reflexivity.
   - destruct Hv as (Ha & Hb & Hi).
-    pose proof (all3_spec _ _ _ _ ldp_post_fields_all a b i7 ltac:(lia) ltac:(lia) ltac:(lia)) as F.
-    cbv beta in F. unfold pair_fields in F. fold (enc_ldp_post a b i7) in F. cbv zeta in F. split_andb F. split; [|lia].
+    pose proof (pair_spec _ ldp_post_fields_all a b i7 Ha Hb ltac:(lia)) as F.
+    unfold ldp_post_ok, pair_fields in F. fold (enc_ldp_post a b i7) in F. cbv zeta in F. split_andb F. split; [|lia].
     destruct (a_epi_itype (enc_ldp_post a b i7)); try discriminate; reflexivity.
 Qed.
 
@@ -514,8 +514,8 @@ Proof.
     pose proof (all3_spec _ _ _ _ add_fields_all i12 sh 0 ltac:(lia) ltac:(lia) ltac:(lia)) as F.
     cbv beta in F. unfold add_fields in F. cbv zeta in F. split_andb F. assumption.
   - destruct Hv as (Ha & Hb & Hi).
-    pose proof (all3_spec _ _ _ _ ldp_post_fields_all a b i7 ltac:(lia) ltac:(lia) ltac:(lia)) as F.
-    cbv beta in F. unfold pair_fields in F. fold (enc_ldp_post a b i7) in F. cbv zeta in F. split_andb F. assumption.
+    pose proof (pair_spec _ ldp_post_fields_all a b i7 Ha Hb ltac:(lia)) as F.
+    unfold ldp_post_ok, pair_fields in F. fold (enc_ldp_post a b i7) in F. cbv zeta in F. split_andb F. assumption.
 Qed.
 
 (* at a tail-call branch that follows the instruction which raised sp, everything has been restored *)
